@@ -67,7 +67,7 @@ def gen(tier, rng):
                 wrap = [0, 1, 3][(k + level) % 3]
                 calls = [[[len(data), 300][k % 2], 1 << 16, flush, 1]] * (len(data) // 300 + 2)
                 a = add(api="deflate", inp=data, level=level, wrap=wrap, lbuf=3, dictmode=1, dct=dct, calls=calls, meta={"family": "dict-direct", "cpu": "host", "dl": dl})
-                b = add(api="deflate", inp=data, level=level, wrap=wrap, lbuf=3, dictmode=2, dct=dct, calls=calls, meta={"family": "dict-preprocessed", "cpu": "host", "dl": dl})
+                b = add(api="deflate", inp=data, level=level, wrap=wrap, lbuf=3, dictmode=2, dct=dct, calls=calls, prefill=(k + level) % 3, meta={"family": "dict-preprocessed", "cpu": "host", "dl": dl})      # (the isal_dict output structure is zeroed / 0xFF-filled / random before the call)
                 pairs.append(("preprocessed-vs-direct|level %d dict_len %d" % (level, dl), a, b))
                 if dl > 32768:
                     c = add(api="deflate", inp=data, level=level, wrap=wrap, lbuf=3, dictmode=1, dct=dct[-32768:], calls=calls, meta={"family": "dict-tail", "cpu": "host", "dl": dl})
